@@ -456,7 +456,7 @@ class Cluster(object):
 
     def _group_commit_check(self, group, generation, member):
         g = self.groups.get(group)
-        if g is None or not g.members:
+        if g is None:
             if generation < 0:
                 return 0
             return E_ILLEGAL_GENERATION
@@ -505,11 +505,79 @@ class Cluster(object):
             out_topics.append((t["topic"], plist))
         return rp.r_offset_fetch(req["correlation_id"], out_topics)
 
-    # group APIs are provided by simgroup.GroupMixin when the GRP engine is in use
-    def _no_groups(self, node, conn, req, rec, info):
-        raise NotImplementedError("group coordinator model not attached")
+    # ------------------------------------------------------------------ group membership (model: vlib/simgroup.py)
+    def group(self, name):
+        from . import simgroup
 
-    h_join_group = h_sync_group = h_heartbeat = h_leave_group = _no_groups
+        g = self.groups.get(name)
+        if g is None:
+            g = self.groups[name] = simgroup.Group(self, name)
+        return g
+
+    def _responder(self, node, conn, api, info):
+        """for replies produced later than the request (held joins and syncs): same hold / ledger path as handle()"""
+
+        def respond(payload):
+            info["answered_time"] = self.world.now
+            if self._take_hold(node, api):
+                info["held"] = True
+                self.held.append((conn, payload, info))
+            else:
+                self._send(conn, payload, info)
+
+        return respond
+
+    def _group_precheck(self, node, api, group):
+        code = self._take_override(node, api)
+        if code is None and self.coordinator_of(group) != node:
+            code = E_NOT_COORDINATOR
+        return code
+
+    def h_join_group(self, node, conn, req, rec, info):
+        corr = req["correlation_id"]
+        code = self._group_precheck(node, "join_group", req["group"])
+        if code is not None:
+            info["join"] = {"code": code, "injected": True}
+            return rp.r_join_group(corr, code, -1, "", "", req["member_id"], [])
+        respond = self._responder(node, conn, "join_group", info)
+
+        def cb(code, generation, protocol, leader, member_id, members):
+            info["join"] = {"code": code, "generation": generation, "leader": leader, "member_id": member_id, "members": [m[0] for m in members]}
+            respond(rp.r_join_group(corr, code, generation, protocol or "", leader or "", member_id, members))
+
+        self.group(req["group"]).join(req["member_id"], req["session_timeout"], req["protocol_type"], [(p["name"], p["metadata"]) for p in req["protocols"]], cb)
+        return None
+
+    def h_sync_group(self, node, conn, req, rec, info):
+        corr = req["correlation_id"]
+        code = self._group_precheck(node, "sync_group", req["group"])
+        if code is not None:
+            info["sync"] = {"code": code, "injected": True}
+            return rp.r_sync_group(corr, code, b"")
+        respond = self._responder(node, conn, "sync_group", info)
+
+        def cb(code, assignment):
+            info["sync"] = {"code": code, "assignment": assignment, "generation": req["generation"], "member_id": req["member_id"]}
+            respond(rp.r_sync_group(corr, code, assignment))
+
+        self.group(req["group"]).sync(req["member_id"], req["generation"], [(a["member_id"], a["assignment"]) for a in req["assignments"]], cb)
+        return None
+
+    def h_heartbeat(self, node, conn, req, rec, info):
+        code = self._group_precheck(node, "heartbeat", req["group"])
+        injected = code is not None
+        if code is None:
+            code = self.group(req["group"]).heartbeat(req["member_id"], req["generation"])
+        info["heartbeat"] = {"code": code, "injected": injected, "generation": req["generation"], "member_id": req["member_id"]}
+        return rp.r_heartbeat(req["correlation_id"], code)
+
+    def h_leave_group(self, node, conn, req, rec, info):
+        code = self._group_precheck(node, "leave_group", req["group"])
+        injected = code is not None
+        if code is None:
+            code = self.group(req["group"]).leave(req["member_id"])
+        info["leave"] = {"code": code, "injected": injected, "member_id": req["member_id"]}
+        return rp.r_leave_group(req["correlation_id"], code)
 
 
 def frame_of(payload):
